@@ -484,6 +484,9 @@ func (w *World) apply(m *myconn, s *Server, c *StmtCtx, id int64) *result {
 			return &result{errno: 3021, msg: "This operation cannot be performed with a running replica io thread"}
 		}
 		s.Source = reChangeSrc.FindStringSubmatch(q)[1]
+		if s.StickySource != "" && s.Source != s.StickySource {
+			s.StickyErr, s.StickySource = false, ""
+		}
 		s.LastIOErrno, s.LastSQLErrno = 0, 0
 		s.Retrieved = NewSet() // relay logs are purged
 		s.BacklogBytes = 0
